@@ -143,6 +143,7 @@ func reportLoadFailure(prop, tier, out string, err error, wall float64) {
 }
 
 func runProperty(g *Gen, prop, tier, out string, cfg SolverCfg, t0 time.Time) int {
+	cfgDir := cfgDirOf(out)
 	pus := unitsForProp(g, prop)
 	if len(pus) == 0 {
 		reportLoadFailure(prop, tier, out, fmt.Errorf("no unit is tagged with property %s", prop), time.Since(t0).Seconds())
@@ -156,8 +157,8 @@ func runProperty(g *Gen, prop, tier, out string, cfg SolverCfg, t0 time.Time) in
 	rs := verifyUnits(g, cts, cfg)
 	solveS := time.Since(tSolve).Seconds()
 
-	known := loadKnown(out)
-	baseline := loadBaseline(out, prop)
+	known := loadKnown(cfgDir)
+	baseline := loadBaseline(cfgDir, prop)
 	rpDir := filepath.Join(out, "replay", prop)
 	os.RemoveAll(rpDir)
 
@@ -405,4 +406,12 @@ func onlyWithinWitness(r *UnitResult, ob *Obligation, witness string, cfg Solver
 		}
 	}
 	return false
+}
+
+// cfgDirOf: known findings and baselines are always read from /verif (or VERIF_CFG), never from a scratch output directory.
+func cfgDirOf(out string) string {
+	if d := os.Getenv("VERIF_CFG"); d != "" {
+		return d
+	}
+	return out
 }
